@@ -22,6 +22,11 @@ Verdicts(r) ==
   IF r.exit # 0 THEN {"C19:abnormal-exit"}
   ELSE IF r.outcome = "deadline" THEN {"C19:no-answer"}
   ELSE IF r.outcome \in {"raised", "refused"} THEN {}
+  \* index-type limits (cumulated positions / parameters, constraints, domains, algorithms): a problem that is
+  \* accepted is answered exactly - every reported assignment valid, the known number of them
+  ELSE IF r.kind = "limit" THEN
+       (IF ~r.valid THEN {"C19:oversized-problem-answered-with-an-invalid-solution"} ELSE {})
+       \cup (IF r.count # r.expected THEN {"C19:oversized-problem-answered-with-missing-or-extra-solutions"} ELSE {})
   ELSE (IF ~r.indomain THEN {"C19:solution-outside-domains"} ELSE {})
        \cup (IF ~r.distinct THEN {"C19:duplicated-solution"} ELSE {})
        \cup (IF r.full /\ r.count # Pow(Width(r), r.n) THEN {"C19:wrong-number-of-solutions"} ELSE {})
